@@ -9,6 +9,7 @@ import (
 	"encoding/json"
 	"flag"
 	"fmt"
+	mrand "math/rand"
 	"reflect"
 	"strings"
 
@@ -334,15 +335,18 @@ func main() {
 			jsonOK := jerr == nil && reflect.DeepEqual(normalizeRsp(rsp), normalizeRsp(rsp2))
 			sct, cerr := rsp2.ToSignedCertificateTimestamp()
 			co := "ErrStruct"
+			// the drawn parts themselves are the reference (see also convsweep.go)
+			sctOK := cerr != nil || (string(sct.LogID.KeyID[:]) == string(id) && sct.Timestamp == ts && sct.SCTVersion == rsp.SCTVersion &&
+				extCoq != "None" && string(sct.Extensions) == string(extRaw))
 			if cerr == nil {
 				d := tlsgen.FromGoType(reflect.TypeOf(*sct))
 				co = "Ok " + tlsgen.ValCoq(d, reflect.ValueOf(*sct))
 			}
 			w.Add(lib.Case{
 				Coq:    fmt.Sprintf("CToSct %s %s %s %s %s (%s)", lib.Nn(uint64(rsp.SCTVersion)), lib.Bytes(id), lib.Nn(ts), extCoq, lib.Bytes(sig), co),
-				Input:  map[string]interface{}{"op": "to-sct", "id_len": len(id), "ext_ok": extCoq != "None", "sig_len": len(sig)},
+				Input:  map[string]interface{}{"op": "to-sct", "id_len": len(id), "ext_ok": extCoq != "None", "ext_len": len(extRaw), "sig_len": len(sig), "json": clip(string(js))},
 				Impl:   map[string]interface{}{"ok": cerr == nil},
-				PropOK: jsonOK, Note: "AddChainResponse does not survive JSON", Tags: []string{fmt.Sprintf("to-sct:ok=%v", cerr == nil)},
+				PropOK: jsonOK && sctOK, Note: "AddChainResponse does not survive JSON, or ToSignedCertificateTimestamp alters the drawn id / timestamp / extensions", Tags: []string{fmt.Sprintf("to-sct:ok=%v", cerr == nil)},
 			})
 			rootB := payload(r, []int{32, 32, 31, 33}[r.Intn(4)])
 			srsp := ct.GetSTHResponse{TreeSize: size, Timestamp: ts, SHA256RootHash: rootB, TreeHeadSignature: sig}
@@ -520,6 +524,9 @@ func main() {
 	for round := lib.Count(2, 6); round > 0; round-- {
 		vectorBounds(r, w, round)
 	}
+	// class "JSON message -> structure conversions" (convsweep.go); own generator, so that the streams
+	// above keep their draws
+	conversionSweep(mrand.New(mrand.NewSource(lib.Seed()^0x0c04)), w)
 	w.Close()
 	fmt.Printf("c04: wrote %d cases\n", w.Len())
 }
